@@ -682,6 +682,47 @@ impl<'a> Th<'a> {
                 o.allow_alloc = true;
                 o
             }
+            Op::FinderRepeat { f, hay, times } => {
+                let h = arena_slice(*hay);
+                let times = *times;
+                match self.get(*f) {
+                    Some(Obj::Fwd { f, needle, cfg, .. }) => {
+                        let f = f.clone();
+                        let (needle, cfg) = (*needle, cfg.clone());
+                        let nb = self.bytes(needle);
+                        let nb_static: &'static [u8] = unsafe { &*(nb as *const [u8]) };
+                        let fresh = match build_fwd(&cfg, nb_static, nb) {
+                            Ok(ff) => res_of(lib(|| ff.find(h)), Res::opt),
+                            Err(m) => Res::Panic(m),
+                        };
+                        // Some(i): the i-th answer differed from the first
+                        let r = lib(|| {
+                            let first = f.find(h);
+                            let mut i = 1u64;
+                            while i < times {
+                                if f.find(h) != first {
+                                    return (first, Some(i));
+                                }
+                                i += 1;
+                            }
+                            (first, None)
+                        });
+                        self.w.stats.lock().unwrap().inner_evals += times;
+                        match r {
+                            Ok((first, None)) => Out::new("finder_repeat", Res::opt(first)).expect(VKind::History, fresh),
+                            Ok((first, Some(i))) => {
+                                self.w.violate(
+                                    VKind::History,
+                                    format!("finder_repeat: search number {} with the same finder and haystack returned something else than the first ({:?})", i, first),
+                                );
+                                Out::new("finder_repeat", Res::opt(first))
+                            }
+                            Err(m) => Out::new("finder_repeat", Res::Panic(m)).expect(VKind::History, fresh),
+                        }
+                    }
+                    _ => Out::skip("finder_repeat"),
+                }
+            }
             Op::FinderClone { f, dst } => {
                 let made = match self.get(*f) {
                     Some(Obj::Fwd { f, needle, cfg, owned }) => {
